@@ -666,6 +666,7 @@ pub fn execute(ctx: &mut Ctx, lines: &[String]) -> Vec<String> {
                 let unknown_before = err_count(&st.err_path, "bad writer spec");
                 let r = catch_unwind(AssertUnwindSafe(|| {
                     // what the log facade does: max-level shortcut, then Log::log
+                    if level(l) > log::max_level() { return; }
                     lg.log(&Record::builder()
                         .level(level(l)).target(&tg).module_path(module.as_deref())
                         .args(format_args!("{}", msg)).build());
@@ -753,7 +754,9 @@ pub fn execute(ctx: &mut Ctx, lines: &[String]) -> Vec<String> {
                         // oracle C13: exactly once to each registered writer named (distinct names), to no other
                         let names: Vec<&str> = inner.split(',').collect();
                         let distinct = names.iter().all(|n| names.iter().filter(|x| x == &n).count() == 1);
-                        if tg.starts_with('{') && distinct {
+                        // (a record above the global max level — which covers every writer's ceiling — is
+                        //  cut off by the log facade before it reaches the logger)
+                        if tg.starts_with('{') && distinct && l <= lfn(log::max_level()) {
                             for (wn, _) in &st.writers {
                                 if st.kinds.get(wn).map(String::as_str) == Some("rec") {
                                     let cnt = got.iter().filter(|(n, _, _)| n == wn).count();
@@ -1024,6 +1027,20 @@ pub fn gen_c02(tier: &str, seed: u64) -> Vec<Vec<String>> {
             let mt = rx.as_ref().map_or(true, |x| regex::Regex::new(x).unwrap().is_match(&msg));
             let module = if r.chance(1, 2) { format!("m{}", hexs(&tg)) } else { "_".into() };
             c.push(format!("LOG {l} {} {module} {} {}", hexs(&tg), if mt { 1 } else { 0 }, hexs(&msg)));
+        }
+        // run-time changes and back (the gate must follow): push a more restrictive spec and pop it,
+        // or set it and set the original again; then the same decisions must hold as before
+        if r.chance(1, 2) {
+            c.push(format!("BUILD t _:{} _", r.below(2)));
+            if r.chance(1, 2) { c.push("PUSH t".into()); c.push("POP".into()); } else { c.push("SET t".into()); c.push("SET s".into()); }
+            c.push(format!("GRID {}", tgs.iter().map(|t| hexs(t)).collect::<Vec<_>>().join(" ")));
+            for _ in 0..r.range(3, 8) {
+                let tg = r.pick(&tgs).clone();
+                let l = r.range(1, 5);
+                let msg = r.pick_s(&MSGS).to_string();
+                let mt = rx.as_ref().map_or(true, |x| regex::Regex::new(x).unwrap().is_match(&msg));
+                c.push(format!("LOG {l} {} _ {} {}", hexs(&tg), if mt { 1 } else { 0 }, hexs(&msg)));
+            }
         }
         // brace targets with registered writers: gate/enabled query vs delivery (ceiling strictly above the level)
         for w in &wnames {
